@@ -23,12 +23,13 @@ Base(t) == CASE t = "Opt_int" -> "int" [] t = "Opt_float" -> "float" [] t = "Opt
 \* "str_odd": a string with spaces / punctuation ("two words", "~/a b/c.txt"); "float_exp": a float whose repr uses an exponent (1e-07);
 \* "int_big": an int beyond 32 bits
 Defs == {"absent", "None", "int_pos", "int_zero", "int_neg", "float_pos", "float_neg", "bool_T", "bool_F",
-         "str", "str_empty", "code", "str_odd", "float_exp", "int_big", "str_dot"}
+         "str", "str_empty", "code", "str_odd", "float_exp", "int_big", "str_dot", "str_kw"}
+\* "str_kw": a string whose VALUE is one of the words the prose type heuristics react to ("path", "list", "true")
 \* "str_dot": a string that contains a full stop ("~/data/x.txt", "v1.2")
 IntDefs == {"int_pos", "int_zero", "int_neg", "int_big"}
 FloatDefs == {"float_pos", "float_neg", "float_exp"}
 BoolDefs == {"bool_T", "bool_F"}
-StrDefs == {"str", "str_empty", "str_odd", "str_dot"}
+StrDefs == {"str", "str_empty", "str_odd", "str_dot", "str_kw"}
 
 \* the Python type of a default value, as a type string
 TypOfDef(d) == CASE d \in IntDefs -> "int" [] d \in FloatDefs -> "float" [] d \in BoolDefs -> "bool"
@@ -42,7 +43,7 @@ Compat(t, d) ==
   \/ d \in FloatDefs /\ Base(t) \in {"float", "absent"}
   \/ d \in BoolDefs /\ Base(t) \in {"bool", "absent"}
   \/ d = "str" /\ Base(t) \in {"str", "absent", "Lit", "Lit2", "LitP"}
-  \/ d \in {"str_empty", "str_odd", "str_dot"} /\ Base(t) \in {"str", "absent"}
+  \/ d \in {"str_empty", "str_odd", "str_dot", "str_kw"} /\ Base(t) \in {"str", "absent"}
   \/ d = "code" /\ Base(t) \in {"int", "absent", "List_str", "Dotted", "dict"}
 
 Docs == {"absent", "plain", "dot"}
